@@ -18,7 +18,7 @@ CONSTANTS
 %(extra)s
 """
 INVS = "\n".join("INVARIANT " + i for i in ["TypeOK", "EndCallbackAtMostOnce", "EndCallbackFiredIffNotWaiting", "EndedMeansAllFired",
-                                            "TombstoneAtMostOnce", "OnceGetsOne", "InterestKeepsAlive"])
+                                            "WaitingOnlyWhileInterest", "TombstoneAtMostOnce", "OnceGetsOne", "InterestKeepsAlive"])
 
 
 class Real:
@@ -131,6 +131,9 @@ def run_phase(rep, args):
             if ended and any(x != 1 for x in ends):
                 rep.violation("C09_PipeDiscipline_EndedMeansAllFired", "C09_PipeDiscipline_EndedMeansAllFired|%s" % a[0],
                               "pipe ended but interest-end callbacks fired %s after %s" % (ends, acts), {"actions": acts})
+            if any(x == 0 for x in ends) and not any(i for _, i in lst):
+                rep.violation("C09_PipeDiscipline_InterestEndFires", "C09_PipeDiscipline_InterestEndFires|%s" % a[0],
+                              "no interested callback is left but an on_interest_end callback has not been called (%s) after %s" % (ends, acts), {"actions": acts})
             if any(v > 1 for v in tomb.values()):
                 rep.violation("C09_PipeDiscipline_TombstoneOnce", "C09_PipeDiscipline_TombstoneOnce|%s" % a[0],
                               "a callback got the terminal event %s times after %s" % (tomb, acts), {"actions": acts})
